@@ -217,7 +217,7 @@ func init() {
 		Families: func(tier string) []Family {
 			return mkFamilies(famOpt{chains: bothChain, roles: []string{"out_sender", "in_sender", "out_receiver"}, backends: []bool{false},
 				flags:  scn.Flags{Time: true, Restart: true, Drop: true, MaxTime: 3, TimeAlways: true, Inject: true, InjectKinds: []string{"agreement_other_type"}},
-				bounds: pick(tier, mc.Bounds{MaxDepth: 6, MaxDev: 3, Budget: 60 * time.Second, NoCrash: true}, mc.Bounds{MaxDepth: 8, MaxDev: 3, Budget: 8 * time.Minute})})
+				bounds: pick(tier, mc.Bounds{MaxDepth: 7, MaxDev: 3, Budget: 60 * time.Second}, mc.Bounds{MaxDepth: 9, MaxDev: 3, Budget: 8 * time.Minute})})
 		},
 		Oracles:      []scn.Oracle{oracleC17},
 		NeedOutcomes: []string{"State_SwapCanceled"},
